@@ -112,6 +112,12 @@ func engineNotebook(ctx *Ctx) {
 	for hI := 0; hI < nHist; hI++ {
 		base := filepath.Join(ctx.Scratch, fmt.Sprintf("nb%d", hI))
 		h := NewHome(base)
+		if ctx.G(hI)%8 == 5 {
+			// home directories as login names make them: dots (also two in a row), blanks, non-ASCII letters, shell metacharacters
+			name := []string{"j..doe", "a..b..c", "first last", "jörg.müller", "x;y&z", "..hidden", "dots...", "-dash", "o'neil"}[(ctx.G(hI)/8)%9]
+			h = NewHomeNamed(base, name)
+			ctx.R.Path("homes-with-unusual-names", 1)
+		}
 		mainCmds := vlib.StripCaches(vlib.GenCommands(r, vlib.DBSpec{N: 3 + r.Intn(8)}))
 		mainP := filepath.Join(base, "main.yml")
 		mainKind := "generated"
@@ -450,6 +456,41 @@ func engineNotebook(ctx *Ctx) {
 							Witness: cs})
 					}
 				})
+			}
+			// a saved pipeline is found by `wtf pipeline <its words>` (what save-pipeline itself suggests to try next)
+			if pipelineCmd && !resplit && (kwMarker != "" || !e.AutoDesc) && mainKind == "generated" {
+				plain := true
+				for _, c := range e.Command {
+					if c < 0x20 || c > 0x7e {
+						plain = false
+					}
+				}
+				if plain && strings.TrimSpace(e.Command) == e.Command && e.Command != "" && !strings.Contains(e.Command, "  ") {
+					word := kwMarker
+					if word == "" {
+						word = marker
+					}
+					pres := h.Wtf(ctx.Wtf, procEnv, "pipeline", "--database", mainP, "--limit", "50", "--", word)
+					ctx.R.Path("pipeline-search-after-save-pipeline", 1)
+					if badP, why := pres.Crashed(); badP {
+						ctx.R.Violate(vlib.Violation{Property: "C08", Clause: "search-after-save-crashes", Path: "wtf pipeline", Detail: why,
+							Witness: map[string]interface{}{"case": cs, "stderr": vlib.Trunc(pres.Stderr, 1200)}})
+					} else {
+						_, shown, _ := ListBlock(pres.Stdout)
+						want := strings.ReplaceAll(e.Command, "|", " │ ")
+						found := false
+						for _, sc := range shown {
+							if sc == want || strings.Join(strings.Fields(sc), " ") == strings.Join(strings.Fields(want), " ") {
+								found = true
+							}
+						}
+						if !found {
+							ctx.R.Violate(vlib.Violation{Property: "C08", Clause: "saved-entry-not-found-by-search", Path: "wtf pipeline",
+								Detail:  fmt.Sprintf("`wtf pipeline %s` (a unique word of the pipeline just saved) does not list it", word),
+								Witness: map[string]interface{}{"case": cs, "stdout": vlib.Trunc(pres.Stdout, 1200)}})
+						}
+					}
+				}
 			}
 			// searchable by the next search (process level): the unique marker word of the description
 			if !resplit && (!e.AutoDesc || kwMarker != "") && s%2 == 0 {
